@@ -8,6 +8,7 @@ checks = {
  "C01": ("model_checking", MC, "Every schedule with delay <= d of every driver program, in all three execution modes with and without a monitor, is executed on the real interpreter under a controlled scheduler; no execution may panic, receive on a closed channel, use a nil channel or fail to return."),
  "C02": ("model_checking", MC, "Same exploration in both polarized modes; the oracle inspects the quiescence snapshot (live process tasks just before the heartbeat timer can fire)."),
  "C03": ("model_checking", MC, "Same exploration; all executions of all admitted configurations of one program must give a single (printed multiset, completion) outcome."),
+ "C04": ("model_checking", MC + "; conformance of every explored execution against an explicit-state exploration of the reference LTS R-sem", "Every explored execution of the implementation (all three modes) prints a multiset admitted by the reference semantics, in an order the reference semantics can produce."),
  "C05": ("exploration", EX + " (reference typechecker R-tc, substructural reasons)", "All single edits of all driver/generated programs: whatever the real typechecker accepts must pass the reference usage analysis (each channel consumed exactly once modulo drop/split permitted by its mode, no shadowing binder)."),
  "C06": ("exploration", EX + " (monitor on the checker's own judgements + R-mode)", "Same program space: every judgement the real checker enters while accepting a program is inspected for the declaration of independence; every shift of every accepted type is checked against the reference preorder."),
  "C07": ("exploration", EX + " (reference typechecker R-tc, both directions)", "Same program space: verdict of the real typechecker = verdict of the independent reference typechecker wherever the latter is definite."),
@@ -43,7 +44,6 @@ for i in built:
         "technique": tech})
 props = [json.loads(l)["id"] for l in open(os.path.join(V, "properties.jsonl"))]
 pending = {
- "C04": "check under construction (reference semantics R-sem); will be claimed once it runs clean",
 }
 for p in props:
     if p not in checks:
